@@ -25,5 +25,6 @@ func moreGens() []struct {
 		{"EdiShape.v", genEdiShape},           // C07
 		{"ChildrenOrder.v", genChildrenOrder}, // C15
 		{"FaultWrap.v", genFaultWrap},         // C16
+		{"PkgVars.v", genPkgVars},             // C14
 	}
 }
